@@ -326,7 +326,7 @@ def write_evidence(prop_id, ev):
 # ------------------------------------------------------------------ the generic differential check
 
 def differential(prop_id, cases, monitor=None, finding_class=None, nontrivial=None,
-                 deeper=None, impl_env=None, max_reports=3, shrinkable=True):
+                 deeper=None, impl_env=None, max_reports=3, shrinkable=True, canon=None):
     """cases: list of (protocol line, label).  Runs the implementation (Rust harness on /repo)
     and the extracted model on every case, compares line by line and applies the verdict rules
     of DESIGN.md section 2.5.  monitor(line, impl_obs) -> protocol line for the extracted property
@@ -347,7 +347,8 @@ def differential(prop_id, cases, monitor=None, finding_class=None, nontrivial=No
     for l, a, b in zip(lines, impl, model):
         if a is None or b is None or a in ("BADCASE", "EXHAUSTED") or b == "BADCASE" or a.startswith("NO-OUTPUT") or b.startswith("NO-OUTPUT") or b.startswith("MODEL-") or b.startswith("STUCK"):
             raise RuntimeError("machinery error on case %r: impl=%r model=%r" % (l, a, b))
-    disagree = [i for i in range(len(lines)) if impl[i] != model[i]]
+    cz = canon if canon is not None else (lambda l, o: o)
+    disagree = [i for i in range(len(lines)) if cz(lines[i], impl[i]) != model[i]]
     mon = {}
     if monitor is not None:
         mlines = [monitor(lines[i], impl[i]) for i in range(len(lines))]
@@ -374,7 +375,7 @@ def differential(prop_id, cases, monitor=None, finding_class=None, nontrivial=No
         if monitor is not None:
             mr = run_model([monitor(c, o) for c, o in zip(cands, im)])
             return [(not r.startswith("ok")) and not invalid(r) and not invalid(o) and not invalid(m) for r, o, m in zip(mr, im, mo)]
-        return [a != b and not invalid(a) and not invalid(b) for a, b in zip(im, mo)]
+        return [cz(c, a) != b and not invalid(a) and not invalid(b) for c, a, b in zip(cands, im, mo)]
 
     known_hits = Counter()
     unknown_failing = []
